@@ -9,11 +9,18 @@ Regions (all located by anchor + brace matching):
   lbfgs.hpp  LBFGS::foreach_fwd / foreach_rev    -> lbfgsForeachFwd / lbfgsForeachRev: the list of
              indices `fun` is called with, each C `for` mapped onto `C09.forIdx` with the loop's own
              init / condition (incl. `i-- > …` side effects) / step expressions.
+  lbfgs.tpp  LBFGS<Conf>::apply_masked_impl: the "initial scaling still to be computed" marker
+             `bool need_γ = γ < 0;`              -> lbfgsMaskedNeedGamma
+             first loop, `if (need_γ) { yᵀy = …; γ = 1 / (ρJ * yᵀy); need_γ = false; }`
+                                                 -> lbfgsMaskedSetGamma (the test), lbfgsMaskedGammaOfPair
+                                                    (the value); the block's shape is pinned
+             `if (need_γ) return false;` between the loops -> lbfgsMaskedFail
 """
 import json
 import os
 import re
 import sys
+import unicodedata
 sys.path.insert(0, os.path.dirname(os.path.abspath(__file__)))
 import cxxparse as cp
 from cxxparse import TranslationError
@@ -175,7 +182,6 @@ def main(out_path):
     pnames = [p.split()[-1].lstrip('&') for p in sig.group(1).split(',')]
     if len(pnames) != 4 or pnames[0] != 'params':
         raise TranslationError(f'update_valid signature changed: {pnames}')
-    import unicodedata
     pnames = [unicodedata.normalize('NFC', p) for p in pnames]
     ss = cp.parse_statements(alt_tokens(body))
     env = {
@@ -199,6 +205,76 @@ def main(out_path):
                             doc=f'{TPP} :: LBFGS::update_valid(params, {", ".join(pnames[1:])})'))
     lits.update(em.nat_lits)
     regions['lbfgsUpdateValid'] = {'file': TPP, 'hash': cp.ast_hash((pnames, ss))}
+
+    # ---- apply_masked_impl: the marker that says "the initial scaling is still to be computed"
+    _, am = cp.find_region(tpp, r'bool\s+LBFGS<Conf>::apply_masked_impl\s*\(')
+    menv = {'γ': ('gamma', 'S'), 'need_γ': ('need_gamma', 'B'), 'ρJ': ('rhoJ', 'S'), 'yᵀy': ('yTy', 'S')}
+    menv = {unicodedata.normalize('NFC', k): v for k, v in menv.items()}
+    am = unicodedata.normalize('NFC', am)
+
+    def masked_fn(name, params, ret_expr, ret, doc):
+        em = Emitter(lambda d: menv.get(d))
+        pl = [(c, menv[c][0], menv[c][1]) for c in params]
+        defs.append(em.function(name, pl, [('return', ret_expr)], ret, doc=f'{TPP} :: LBFGS::apply_masked_impl — {doc}'))
+        lits.update(em.nat_lits)
+        regions[name] = {'file': TPP, 'hash': cp.ast_hash(ret_expr)}
+    # (a) the declaration (must precede the first loop)
+    decl_txt = cp.find_statement(am, r'bool\s+need_γ\s*=')
+    if am.index(decl_txt) > re.search(r'foreach_rev\s*\(', am).start():
+        raise TranslationError('apply_masked_impl: `need_γ` is declared after the first loop')
+    decl = cp.parse_statements(alt_tokens(decl_txt))
+    if len(decl) != 1 or decl[0][0] != 'decl' or decl[0][2] != 'need_γ' or decl[0][3] is None:
+        raise TranslationError('apply_masked_impl: `bool need_γ = …;` changed shape')
+    masked_fn('lbfgsMaskedNeedGamma', ['γ'], decl[0][3], 'B', '`bool need_γ = …` (γ after the BasedOnCurvature override)')
+    # (b) first loop: the block that computes the scaling from the pair
+    hdr_rev, rev = cp.find_region(am, r'foreach_rev\s*\(\s*\[&\]\s*\(\s*index_t\s+i\s*\)')
+    cands = []
+    for m in re.finditer(r'\bif\s*\(', rev):
+        op = m.end() - 1
+        cl = cp.match_brace(rev, op, '(', ')')
+        k = cl + 1
+        while k < len(rev) and rev[k].isspace():
+            k += 1
+        if k < len(rev) and rev[k] == '{':
+            blk = rev[k + 1:cp.match_brace(rev, k)]
+            if re.search(r'(?<![\w.])γ\s*=[^=]', blk):
+                cands.append((rev[op + 1:cl], blk))
+    if len(cands) != 1:
+        raise TranslationError(f'apply_masked_impl: expected exactly one `if (…) {{ … γ = … }}` in the first loop, found {len(cands)}')
+    cond = cp.parse_expression(alt_tokens(cands[0][0]))
+    blk = cp.parse_statements(alt_tokens(cands[0][1]))
+    want_blk = [
+        ('decl', 'yᵀy', ('call', ('id', 'dotJ'), [('call', ('id', 'y'), [('id', 'i')], None)] * 2, None)),
+        ('assign', 'γ'),
+        ('expr', ('bin', '=', ('id', 'need_γ'), ('id', 'false'))),
+    ]
+    shape = []
+    gam_rhs = None
+    for st in blk:
+        if st[0] == 'decl':
+            shape.append(('decl', st[2], st[3]))
+        elif st[0] == 'expr' and st[1][0] == 'bin' and st[1][1] == '=' and st[1][2] == ('id', 'γ'):
+            shape.append(('assign', 'γ'))
+            gam_rhs = st[1][3]
+        else:
+            shape.append(st)
+    if repr(shape) != repr(want_blk):
+        raise TranslationError('apply_masked_impl: the block `{ yᵀy = dotJ(y(i), y(i)); γ = …; need_γ = false; }` '
+                               f'changed shape: {shape!r}')
+    masked_fn('lbfgsMaskedSetGamma', ['need_γ', 'γ'], cond, 'B',
+              'first loop, test of `if (…) { γ = …; need_γ = false; }` (evaluated for a pair valid on J)')
+    masked_fn('lbfgsMaskedGammaOfPair', ['ρJ', 'yᵀy'], gam_rhs, 'S', 'first loop, `γ = …` (ρJ = 1/⟨s,y⟩_J, yᵀy = ⟨y,y⟩_J)')
+    # (c) between the loops: the failure test
+    after = am[am.index(rev) + len(rev):]
+    after = after[:re.search(r'foreach_fwd\s*\(', after).start()]
+    fails = [m for m in re.finditer(r'\bif\s*\(', after)]
+    if len(fails) != 1:
+        raise TranslationError('apply_masked_impl: expected exactly one `if` between the two loops')
+    fst = cp.parse_statements(alt_tokens(cp.find_statement(after, r'\bif\s*\(')))
+    if len(fst) != 1 or fst[0][0] != 'if' or fst[0][3] is not None or \
+            repr(fst[0][2]) not in (repr(('return', ('id', 'false'))), repr(('block', [('return', ('id', 'false'))]))):
+        raise TranslationError('apply_masked_impl: `if (…) return false;` between the loops changed shape')
+    masked_fn('lbfgsMaskedFail', ['need_γ', 'γ'], fst[0][1], 'B', '`if (…) return false;` after the first loop')
 
     # ---- ring index arithmetic (class LBFGS in the header)
     _, cls = cp.find_region(hpp, r'class\s+LBFGS\s*\{')
